@@ -152,6 +152,15 @@ class Builder(object):
             return (f * c) if self.flip else (c * f)
         if t == "neg":
             return -self.build(e["f"])
+        # f * f and (f * f) * f of one and the same filter expression: half of the routes write it as f ** n
+        if t == "mul" and self.flip:
+            base, n = None, 0
+            if e["l"] == e["r"]:
+                base, n = e["l"], 2
+            elif e["l"]["t"] == "mul" and e["l"]["l"] == e["l"]["r"] == e["r"]:
+                base, n = e["r"], 3
+            if base is not None and base["t"] == "flt":
+                return self.build(base) ** n
         # a zero-order atom c/1 is the number (or Stream) c: half of the routes hand the library the bare value,
         # which goes through the number/Stream branch of ZFilter.__add__/__sub__/__mul__ and their reflected forms
         def bare(x):
